@@ -570,6 +570,15 @@ class Fn:
         if k == "aggregate":
             kk = rv["kind"]
             st = steps
+            if kk["k"] == "adt" and kk.get("adt") == "std::borrow::Cow" and rv["ops"]:
+                # `Cow::Borrowed(x)` / `Cow::Owned(x)` is x for every question asked here
+                if st and st[0][0] == "variant":
+                    if st[0][1] != kk["variant"]:
+                        return set()
+                    st = st[1:]
+                    if st and st[0] == ("field", 0):
+                        st = st[1:]
+                return self._op_origins(rv["ops"][0], st, visiting)
             if kk["k"] == "adt":
                 # optional leading variant step
                 if st and st[0][0] == "variant":
@@ -647,6 +656,12 @@ class Fn:
                 out = out | self._op_origins(cs.args[1], steps, visiting)
             return out
         if p in PASS_THROUGH and cs.args:
+            return self._op_origins(cs.args[0], steps, visiting)
+        if cs.name == "map" and p.startswith(("std::option::Option::", "std::result::Result::")) and len(cs.args) == 2 \
+                and cs.args[1]["k"] == "const" and "std::borrow::Cow" in str((cs.args[1].get("fn") or {}).get("path", "")) + str(cs.args[1].get("text", "")):
+            # `opt.map(Cow::Owned)`: the same payload in a transparent wrapper
+            return self._op_origins(cs.args[0], steps, visiting)
+        if "std::borrow::Cow" in p and cs.name in ("into_owned", "to_mut", "as_ref", "deref") and cs.args:
             return self._op_origins(cs.args[0], steps, visiting)
         if p in ITER_SOURCES and cs.args:
             base = self._op_origins(cs.args[0], (), visiting)
